@@ -1638,6 +1638,30 @@ func (f *ndFunc) run() {
 						}
 						return nil, nil
 					}
+					// a comparison of two flags (`a.IsNTT != b.IsNTT`): exactly one / both-or-none hold
+					if be, ok := e.(*ast.BinaryExpr); ok && (be.Op == token.EQL || be.Op == token.NEQ) {
+						isFlag := func(x ast.Expr) bool {
+							if tv, ok := f.info.Types[x]; ok && tv.Value != nil {
+								return false
+							}
+							b, ok := f.info.TypeOf(x).Underlying().(*types.Basic)
+							return ok && b.Info()&types.IsBoolean != 0
+						}
+						if isFlag(be.X) && isFlag(be.Y) {
+							ka, va, oka := atom(be.X)
+							kb, vb, okb := atom(be.Y)
+							if oka && okb && ka != kb {
+								differ := (be.Op == token.NEQ) == want
+								// value of the atom that makes the operand true: va / vb
+								if differ {
+									// (X or Y) and (not X or not Y)
+									return nil, [][]lit{{{ka, va}, {kb, vb}}, {{ka, !va}, {kb, !vb}}}
+								}
+								// (X or not Y) and (not X or Y)
+								return nil, [][]lit{{{ka, va}, {kb, !vb}}, {{ka, !va}, {kb, vb}}}
+							}
+						}
+					}
 					if k, v, ok := atom(e); ok {
 						return []lit{{k, v == want}}, nil
 					}
